@@ -74,6 +74,8 @@ func (h *H) replay(op []string) (string, bool) {
 			return "", false
 		}
 		return runesTok(k.String()), true
+	case "hypl":
+		return "holds", true // recomputed from Go's tables by the generator
 	case "hypa":
 		return "agree", true // recomputed from Go's tables by the hypa generator; nothing in the op to re-run
 	case "hyp":
